@@ -1,5 +1,5 @@
 """C09 — changes and patch files are applied strictly in order."""
-import os, shutil
+import os, re, shutil
 import vlib, enginecorr, enginecheck
 from c01 import TRUSTED
 from vlib import b64, unb64
@@ -242,6 +242,11 @@ def loader_case(rng, k):
         tgt = ps if (ps and (not listed or rng.random() < 0.5)) else listed
         tgt[rng.randrange(len(tgt))] = "broken.patch"
         shape += ", one broken"
+    overlong = False
+    if use_list and listed and 0.3 <= r < 0.42:   # a line longer than any path can be (and than bufio.Scanner's buffer) between the entries
+        listed.insert(rng.randrange(len(listed) + 1), "x" * rng.choice([66000, 70000, 200000]) + ".patch")
+        shape += ", an overlong line"
+        overlong = True
     list_content = None
     if use_list:
         sep = rng.choice(["\n", "\r\n"])
@@ -261,10 +266,12 @@ def loader_case(rng, k):
         argv += ["-P", "list.txt"]
     mfiles = " ".join("(%s (ok %s))" % (vlib.hx(n), vlib.hx(n)) if n != "broken.patch" else "(%s bad)" % vlib.hx(n) for n in sorted(files))
     if use_list:
-        mfiles += " (%s (list %s))" % (vlib.hx("list.txt"), vlib.hx(list_content) if list_content else "x")
+        # for the model the overlong line is the name of a file that is not there (which it is); its length is not modelled
+        mlist = re.sub(r"x{60000,}\.patch", "toolong.patch", list_content) if list_content else list_content
+        mfiles += " (%s (list %s))" % (vlib.hx("list.txt"), vlib.hx(mlist) if mlist else "x")
     sid = "none" if stdin == "" or stdin.startswith("garbage") else vlib.hx("stdin")
     model = "(loader (patches %s) (list %s) (stdin %s) (files %s))" % (" ".join(vlib.hx(n) for n in ps), vlib.hx("list.txt") if use_list else "none", sid, mfiles)
-    return {"argv": argv, "files": files, "list_content": list_content, "stdin": stdin, "model": model, "shape": shape}
+    return {"argv": argv, "files": files, "list_content": list_content, "stdin": stdin, "model": model, "shape": shape, "overlong": overlong}
 
 
 def run_loader_case(cm):
@@ -301,6 +308,20 @@ def main():
     thorough = ck.tier == "thorough"
     n = 2400 if thorough else 300
     cases = [gen_case(ck.rng, k) for k in range(n)]
+    # fixed cases: what go/printer normalises between two runs (number prefixes, redundant result parentheses) and a later
+    # pattern that depends on the spelling (known finding F36); code reproduced through a metavariable in which a parameter
+    # has the name of a package whose import a later change deletes (F31)
+    C1 = "@@\n@@\n-old()\n+new()\n"
+    for src, c2 in (("package a\n\nfunc f() {\n\told()\n\tg(0X1F)\n}\n", "@@\n@@\n-g(0x1F)\n+h()\n"),
+                    ("package a\n\nfunc g() (int) {\n\told()\n\treturn 1\n}\n", "@@\n@@\n-func g() int {\n+func h() int {\n   ...\n }\n"),
+                    ("package a\n\nfunc f() {\n\told()\n\tg(1_0)\n\tg(0B11)\n}\n", "@@\n@@\n-g(0b11)\n+h()\n")):
+        for mode in ("one-file", "p-each"):
+            cases.append(([C1, c2], [{"kind": "printer-normalises"}, {"kind": "printer-normalises"}], src, mode, None))
+    OBJ_SRC = ("package a\n\nimport (\n\t\"net/url\"\n\t\"os\"\n)\n\nfunc parse(s string) {\n\turl.Parse(s)\n\t_ = os.Args\n}\n\n"
+               "type U struct{ Host string }\n\nfunc host(url *U) string { return trace(url.Host) }\n")
+    for mode in ("one-file", "p-each"):
+        cases.append((["@@\nvar x expression\n@@\n-trace(x)\n+x\n", "@@\nvar x expression\n@@\n-import \"net/url\"\n\n-url.Parse(x)\n+myParse(x)\n"],
+                      [{"kind": "reproduced-shadow"}, {"kind": "reproduced-shadow"}], OBJ_SRC, mode, None))
     outs = vlib.pmap(run_case, cases)
     # syntax-tree digests, parentheses elided
     srcs = []
@@ -347,10 +368,11 @@ def main():
         if dc.startswith("ERR:") or dh.startswith("ERR:"):
             ck.violation("an output does not parse (combined: %s, chained: %s)" % (dc[:60], dh[:60]), rep)
         elif dc != dh:
-            ck.violation("combined run and chain of single-change runs produce different programs", rep)
+            ck.violation("combined run and chain of single-change runs produce different programs", rep,
+                         finding_class="printer-normalises-between-runs" if metas and metas[0].get("kind") == "printer-normalises" else None)
         # model correspondence on the combined patch
-        if mo["skipped"]:
-            continue
+        if mo["skipped"] or (metas and metas[0].get("kind") == "printer-normalises"):
+            continue        # (the engine comparison reads gopatch's tree back from the printed file: 0X1F comes back as 0x1F)
         enginecheck.report(ck, "c09#%d" % k, pairs[k], mo, "none", {"mode": mode})
     # ---------------- which patch files are loaded, and in which order (Model/Loader.v): -p in order, then the -P list line by
     # line (blank lines skipped, CRLF, no final newline, a file named twice is applied twice), stdin only without -p/-P;
@@ -371,9 +393,13 @@ def main():
             bad = vlib.unhx(m[1][2]).decode()
             ck.tally("loader_outcome", "a patch file cannot be loaded")
             if o["rc"] == 0:
-                ck.violation("patch file %s cannot be loaded (missing or not a patch) but the run exits 0" % bad, rep)
+                ck.violation("patch file %s cannot be loaded (missing or not a patch) but the run exits 0" % ("on a line of the list longer than 64 KiB" if bad == "toolong.patch" else bad), rep)
             elif o["comb"] != LSRC.encode():
                 ck.violation("patch file %s cannot be loaded, yet the target was modified" % bad, rep)
+            elif bad == "toolong.patch":
+                # a name no file can have: the list file is what cannot be read
+                if "list.txt" not in o["stderr"]:
+                    ck.violation("the patch list has a line longer than 64 KiB; stderr does not name the list: %r" % (o["stderr"][:200],), rep)
             elif bad not in o["stderr"]:
                 ck.violation("patch file %s cannot be loaded; stderr does not name it: %r" % (bad, o["stderr"][:200]), rep)
             continue
